@@ -82,6 +82,12 @@ def gen_cases(ctx, rng):
         if rsize == 0:
             # a zero-length read never consumes: keep the script finite
             c["ops"] = c["ops"][:30]
+        if rng.chance(1, 2):
+            # some reads are called while an interrupt is already pending (SetInterrupt users signal asynchronously)
+            for op in c["ops"]:
+                if op["k"] == "read" and rng.chance(1, 3):
+                    op["k"] = "readp"
+            stats["with_pending_interrupt"] = stats.get("with_pending_interrupt", 0) + 1
         cases.append(c)
         stats["random"] += 1
     # concurrent oracle-only cases over channel capacities
@@ -123,7 +129,7 @@ def oracle(case, res):
                     avail += 1
         elif op["k"] == "close":
             closed = True
-        elif op["k"] == "read":
+        elif op["k"] in ("read", "readp"):
             r = res["reads"][ri]
             ri += 1
             if len(r["data"]) > op["n"]:
@@ -152,6 +158,7 @@ def coq_case(case, res):
     acts = []
     avail = 0
     last_len = 0
+    nread = 0
     for op in case["ops"]:
         if op["k"] == "avail":
             for _ in range(op["n"]):
@@ -163,8 +170,11 @@ def coq_case(case, res):
             acts.append("AMutate " + C.coq_zlist([238] * last_len))
         elif op["k"] == "close":
             acts.append("AClose")
-        elif op["k"] == "read":
-            acts.append("ARead %d false" % op["n"])
+        elif op["k"] in ("read", "readp"):
+            # readp: the harness says whether it armed the interrupt before the call (nothing queued, writer open)
+            armed = op["k"] == "readp" and nread < len(res.get("reads") or []) and res["reads"][nread].get("armed")
+            acts.append("ARead %d %s" % (op["n"], "true" if armed else "false"))
+            nread += 1
     obs = ["(%s, %s, %d)" % (C.coq_bool(r["blocked"]), C.coq_zlist(r["data"]), r["err"]) for r in (res.get("reads") or [])]
     return "(%s, %s)" % (C.coq_list(acts), C.coq_list(obs))
 
